@@ -4,6 +4,7 @@
 -/
 import Lean.Data.Json
 import SqlairModel.Spec.L4
+import SqlairModel.Spec.L5
 import Driver.Json
 
 open Lean Sqlair Sqlair.Rt
@@ -62,9 +63,101 @@ def handleL4 (j : Json) : Except String Json := do
      ("c14", Json.bool (holdsC14 c o)), ("c15", Json.bool (holdsC15 c o)),
      ("c20", Json.bool (holdsC20 c o))])
 
+open Sqlair.Cache in
+def parseHOp (j : Json) : Except String HOp := do
+  match gs j "op" with
+  | "newS" => pure .newS
+  | "newD" => pure .newD
+  | "run" => pure (.run (gn j "s") (gn j "d") (gn j "shape"))
+  | "dropS" => pure (.dropS (gn j "s"))
+  | "dropD" => pure (.dropD (gn j "d"))
+  | "gc" => pure .gc
+  | o => throw s!"bad history op {o}"
+
+open Sqlair.Cache in
+def parseSegment (j : Json) : Except String Segment := do
+  let calls ← (optList j "calls").toList.mapM fun c => do
+    match c with
+    | .arr #[k, a, b, d] => pure ((← k.getStr?), (← a.getNat?), (← b.getNat?), (← d.getNat?))
+    | _ => throw "bad call"
+  pure { calls := calls, closed := sortNat (natList j "closed") }
+
+open Sqlair.Cache in
+def segJson (s : Segment) : Json :=
+  Json.mkObj [("calls", Json.arr (s.calls.map fun (k, a, b, d) => Json.arr #[Json.str k, (a : Json), (b : Json), (d : Json)]).toArray),
+    ("closed", Json.arr (s.closed.map fun (n : Nat) => (n : Json)).toArray)]
+
+open Sqlair.Cache in
+def parseExecs (oj : Json) : List ExecObs :=
+  (optList oj "execs").toList.filterMap fun e =>
+    match e with
+    | .arr #[a, b, c, d, f, g] =>
+      match a.getNat?, b.getNat?, c.getNat?, d.getNat?, f.getNat?, g.getBool? with
+      | .ok a, .ok b, .ok c, .ok d, .ok f, .ok g => some { ds := a, db := b, shape := c, wantDb := d, wantShape := f, closedBefore := g }
+      | _, _, _, _, _, _ => none
+    | _ => none
+
+open Sqlair.Cache in
+def handleL5 (j : Json) : Except String Json := do
+  let h ← (← getArr j "history").toList.mapM parseHOp
+  let oj ← j.getObjVal? "obs"
+  let osegs ← (optList oj "segs").toList.mapM parseSegment
+  let opairs : List (Nat × Nat × Nat) := (optList oj "pairs").toList.filterMap fun p =>
+    match p with
+    | .arr #[a, b, c] => match a.getNat?, b.getNat?, c.getNat? with
+      | .ok a, .ok b, .ok c => some (a, b, c)
+      | _, _, _ => none
+    | _ => none
+  let (st, segs) := runHistory h {} 0 [] 1
+  -- the harness closes the last segment twice (after the final gc and at the end)
+  let segs := segs.filter (fun s => s != {}) 
+  let osegs := osegs.filter (fun s => s != {})
+  let mpairs := st.pairs
+  let sortP (l : List (Nat × Nat × Nat)) := l.foldl (fun acc x =>
+    let rec ins : List (Nat × Nat × Nat) → List (Nat × Nat × Nat)
+      | [] => [x]
+      | y :: ys => if x.1 < y.1 || (x.1 == y.1 && x.2.1 ≤ y.2.1) then x :: y :: ys else y :: ins ys
+    ins acc) []
+  let dsegs := segs != osegs
+  let dpairs := sortP mpairs != sortP opairs
+  -- attribution: a wrong statement executed is C09's, a missing/extra close or cache entry C11's
+  let callsOf (l : List Segment) := l.foldl (fun acc s => acc ++ s.calls) []
+  let aff : List String :=
+    (if callsOf segs != callsOf osegs then ["C09"] else []) ++
+    (if (dsegs && callsOf segs == callsOf osegs) || dpairs then ["C11"] else [])
+  let doubleClose := gn oj "doubleClose"
+  let openStmts := gn oj "openStmts"
+  let execs : List ExecObs := parseExecs oj
+  let closedUse := gn oj "closedUse"
+  pure (Json.mkObj
+    [("model", Json.mkObj [("segs", Json.arr (segs.map segJson).toArray),
+        ("pairs", Json.arr (mpairs.map fun (a, b, c) => Json.arr #[(a : Json), (b : Json), (c : Json)]).toArray)]),
+     ("agree", Json.bool (!dsegs && !dpairs)),
+     ("affects", Json.arr (aff.map Json.str).toArray),
+     ("diff", Json.str (if dsegs then "driver log segments differ" else if dpairs then "cache content differs" else "")),
+     ("c09", Json.bool (holdsC09 execs)),
+     ("c10", Json.bool (holdsC10 execs (gn oj "closedErrs") && closedUse == 0)),
+     ("c11", Json.bool (holdsC11 doubleClose openStmts opairs.length 1 (gb oj "allDropped") opairs.length))])
+
+open Sqlair.Cache in
+def handleL5c (j : Json) : Except String Json := do
+  let oj ← j.getObjVal? "obs"
+  let execs : List ExecObs := parseExecs oj
+  let c09 := holdsC09 execs
+  let c10 := holdsC10 execs (gn oj "closedErrs")
+  -- everything was dropped and collected: nothing may be left open or cached
+  let c11 := holdsC11 (gn oj "doubleClose") (gn oj "openStmts") (gn oj "cacheLeft") 4 true (gn oj "cacheLeft")
+  let why := (if c09 then "" else "an execution used a statement prepared for another SQL or DB; ") ++
+    (if c10 then "" else "a closed statement was executed; ") ++
+    (if c11 then "" else s!"after dropping everything: open driver statements {gn oj "openStmts"}, cache entries {gn oj "cacheLeft"}, double closes {gn oj "doubleClose"}")
+  pure (Json.mkObj [("c09", Json.bool c09), ("c10", Json.bool c10), ("c11", Json.bool c11), ("why", Json.str why),
+    ("execs", (execs.length : Json))])
+
 def handleRt (j : Json) : Except String Json := do
   match gs j "sub" with
   | "l4" => handleL4 j
+  | "l5" => handleL5 j
+  | "l5c" => handleL5c j
   | s => throw s!"unknown runtime sub-layer {s}"
 
 end Driver
